@@ -87,10 +87,18 @@ def cases(seed, tier):
                     steps.append({'op': 'save', 'file': 0, 'input': {'kind': rng.choice(['list', 'list', 'tuple']), 'items': items}, 'mode': mode, 'tree': True})
             if steps and rng.random() < 0.3:
                 steps.append({'op': 'read', 'file': 0, 'tree': True})
+        if i % 7 == 3:
+            # the session author is set after the file was created: later saves into the file leave its header alone (decided by
+            # the oracle only: the model takes one author per scenario)
+            k0 = next((j for j, st_ in enumerate(steps) if st_['op'] == 'save'), None)
+            if k0 is not None:
+                steps.insert(k0 + 1, {'op': 'raw', 'file': 0, 'kind': 'author', 'name': rng.choice(['alice', 'b\u00f6b'])})
         steps.append({'op': 'read', 'file': 0, 'tree': True})
         for r in sorted(present):
             steps.append({'op': 'read', 'file': 0, 'tree': True, 'emdpath': r})
         out.append({'tops': tops, 'steps': steps})
+        if any(st_['op'] == 'raw' for st_ in steps):
+            out[-1]['oracle_only'] = True
     return out
 
 
@@ -136,6 +144,8 @@ def oracle(case, obs):
     prev_slot = None
     for j, (st, o) in enumerate(zip(case['steps'], obs)):
         where = f'step {j} ' + (f"save mode={st['mode']} " + (st['input']['kind'] if st.get('input') else f"top={st['top']} tp={st['tp']} tree={st['tree']} emdpath={st.get('emdpath')}") if st['op'] == 'save' else f"read emdpath={st.get('emdpath')}")
+        if st['op'] == 'raw':
+            continue
         if st['op'] == 'read':
             roots = sorted(E)
             if not o.get('sha_unchanged', True):
